@@ -476,3 +476,72 @@ Fixpoint prefixb (l1 l2 : list hill) : bool :=
 (* everything of the peer that the reader can see: the state file and the visible records *)
 Definition visible (w : writer) : list hill :=
   if w_sok w then sf_hills (w_state w) ++ firstn (Z.to_nat (w_vis w)) (w_file w) else [].
+
+(* ------------------------------------------------------------------------------------------- *)
+(* (c) n walkers, each both writer and reader of every other one                                *)
+(* ------------------------------------------------------------------------------------------- *)
+
+(* a walker: what it leaves in the file system, and its mirror biases indexed by the peer's number
+   (its own slot is never used) *)
+Record wk := mkWk { k_w : writer; k_m : list (option mirror) }.
+Definition sys := list wk.
+
+Inductive sev : Type :=
+| SDeposit (i : nat) (h : hill)
+| SVis (i : nat) (c : Z)
+| SSVis (i : nat) (b : bool)
+| SWState (i : nat) (St : Z)             (* write_state_to_replicas() of walker i as one event *)
+| SWStateB (i : nat)                     (* its first half: hills file restarted *)
+| SWStateA (i : nat) (St : Z)            (* its second half: state file renamed; mirrors of i scheduled for a reread *)
+| SSetup (i : nat) (St : Z) (newname : bool)
+| SShare (i : nat)                       (* replica_share() of walker i: every registered peer is read *)
+| SRestart (i : nat).                    (* new process: the mirrors of walker i are gone *)
+
+(* read_replica_files(): the loop over the peers; j = number of the peer at the head of the lists *)
+Fixpoint share_all (i : nat) (ws : list writer) (j : nat) (ms : list (option mirror)) : list (option mirror) :=
+  match ws, ms with
+  | w :: wt, m :: mt => (if Nat.eqb j i then m else share true true w m) :: share_all i wt (S j) mt
+  | _, _ => []
+  end.
+
+Definition on_writer (f : writer -> writer) (x : wk) : wk := mkWk (f (k_w x)) (k_m x).
+Definition unsync_all (x : wk) : wk := mkWk (k_w x) (map m_unsync (k_m x)).
+
+Definition sys_step (s : sys) (e : sev) : sys :=
+  match e with
+  | SDeposit i h => upd_nth i (on_writer (fun w => wr_deposit w h)) s
+  | SVis i c => upd_nth i (on_writer (fun w => wr_vis w c)) s
+  | SSVis i b => upd_nth i (on_writer (fun w => wr_svis w b)) s
+  | SWState i t => upd_nth i (fun x => unsync_all (on_writer (fun w => wr_state w t) x)) s
+  | SWStateB i => upd_nth i (on_writer wr_state_b) s
+  | SWStateA i t => upd_nth i (fun x => unsync_all (on_writer (fun w => wr_state_a w t) x)) s
+  | SSetup i t nn => upd_nth i (fun x => unsync_all (on_writer (fun w => wr_setup w t nn) x)) s
+  | SShare i => upd_nth i (fun x => mkWk (k_w x) (share_all i (map k_w s) 0 (k_m x))) s
+  | SRestart i => upd_nth i (fun x => mkWk (k_w x) (map (fun _ => None) (k_m x))) s
+  end.
+
+Definition sys_run (es : list sev) (s : sys) : sys := fold_left sys_step es s.
+Definition sys_init (n : nat) : sys := repeat (mkWk wr_init (repeat None n)) n.
+
+(* what walker r holds for walker p, together with what p has left in the file system *)
+Definition pair_of (s : sys) (r p : nat) : pstate :=
+  (k_w (nth p s (mkWk wr_init [])), nth p (k_m (nth r s (mkWk wr_init []))) None).
+
+(* the events of the system as the pair (reader r, peer p) lives them *)
+Definition pproj (r p : nat) (e : sev) : list pev :=
+  match e with
+  | SDeposit i h => if Nat.eqb i p then [PDeposit h] else []
+  | SVis i c => if Nat.eqb i p then [PVis c] else []
+  | SSVis i b => if Nat.eqb i p then [PSVis b] else []
+  | SWState i t => (if Nat.eqb i p then [PWState t] else []) ++ (if Nat.eqb i r then [RWState] else [])
+  | SWStateB i => if Nat.eqb i p then [PWStateB] else []
+  | SWStateA i t => (if Nat.eqb i p then [PWStateA t] else []) ++ (if Nat.eqb i r then [RWState] else [])
+  | SSetup i t nn => (if Nat.eqb i p then [PSetup t nn] else []) ++ (if Nat.eqb i r then [RWState] else [])
+  | SShare i => if Nat.eqb i r then [RShare] else []
+  | SRestart i => if Nat.eqb i r then [RRestart] else []
+  end.
+
+(* every walker follows the writer-side protocol: checked pair by pair on the projected traces *)
+Definition sys_ok (n : nat) (es : list sev) : bool :=
+  forallb (fun r => forallb (fun p => Nat.eqb r p || trace_ok true true true (flat_map (pproj r p) es) pinit)
+                            (seq 0 n)) (seq 0 n).
